@@ -2,21 +2,36 @@
 Require Import Pearl.Base.Prelude Pearl.Storage.Model Pearl.Storage.Spec Pearl.Storage.Inv
                Pearl.Storage.ReadProofs Pearl.Storage.InvProofs Pearl.Storage.Theorems.
 
-(* After every history, an operation that is not a write or a delete -- close / create / restore of the
+(* After every history, an operation that is not a write or a delete (nor damage done to a blob file by a crash between
+   two sessions, OCut, which is not an operation of the storage: is_data_op counts it with them) -- close / create / restore of the
    active blob (direct or through the background worker, applicable or not), force_update with any
    predicate, free_excess_resources, index dumps completing at the quiescence point, sleep, counters,
    close, drop, open, index removal -- leaves the log (the abstraction every query is a function of)
-   exactly as it was. *)
+   exactly as it was. (`s_bad (reach K cfg ops) = []`: no blob file was made unreadable by a crash since the last
+   start -- always so while the storage is open, C03_open_storage_has_no_unreadable_file; an `open` after such damage
+   moves the file away, C06_cut_inside_quarantines.) *)
 Theorem C04_log_unchanged :
   forall (K : N) (cfg : config) (ops : list op) (o : op),
-    is_data_op o = false ->
+    is_data_op o = false -> s_bad (reach K cfg ops) = [] ->
     abs (fst (step_q K cfg (reach K cfg ops) o)) = abs (reach K cfg ops).
 Proof. exact reach_nondata_abs. Qed.
+
+(* without proviso, for EVERY history (crash damage included): the log is as it was, except that `open` drops the records
+   of the blob files a crash made unreadable (readable_log s = abs s when there is none, readable_log_no_bad) *)
+Theorem C04_log_unchanged_or_readable :
+  forall (K : N) (cfg : config) (ops : list op) (o : op),
+    is_data_op o = false ->
+    abs (fst (step_q K cfg (reach K cfg ops) o))
+    = match o with OOpen _ => readable_log (reach K cfg ops) | _ => abs (reach K cfg ops) end.
+Proof. exact reach_nondata_abs_gen. Qed.
+Theorem C04_readable_log_is_the_log_without_damage :
+  forall s : storage, s_bad s = [] -> readable_log s = abs s.
+Proof. exact readable_log_no_bad. Qed.
 
 (* hence read / contains answer as before *)
 Theorem C04_read_unchanged :
   forall (K : N) (cfg : config) (ops : list op) (o : op) (k : N),
-    is_data_op o = false ->
+    is_data_op o = false -> s_bad (reach K cfg ops) = [] ->
     get_latest_entry (reach K cfg (ops ++ [o])) k None = get_latest_entry (reach K cfg ops) k None.
 Proof. exact reach_maint_read. Qed.
 
@@ -54,6 +69,8 @@ Example C04_still_writable_former_F2_history :
 Proof. vm_compute. reflexivity. Qed.
 
 Print Assumptions C04_log_unchanged.
+Print Assumptions C04_log_unchanged_or_readable.
+Print Assumptions C04_readable_log_is_the_log_without_damage.
 Print Assumptions C04_read_unchanged.
 Print Assumptions C04_invariant_kept.
 Print Assumptions C04_still_writable.
